@@ -1,7 +1,7 @@
 (* C04 property theorems for histories in which the LIB MOVES.  Proofs live in Proofs/Fk/MovingLibEvents.v and
    Proofs/C04_MovingProofs.v. *)
 From BV Require Import Base.Prelude Model.Block Model.ForkDB Model.Forkable Spec.Consumer Spec.Universe
-  Spec.C01_Spec Spec.C01_Moving_Spec Spec.C04_Spec Spec.C04_Moving_Spec Proofs.C04_MovingProofs.
+  Spec.C01_Spec Spec.C01_Moving_Spec Spec.C01_Roots_Spec Spec.C04_Spec Spec.C04_Moving_Spec Proofs.C04_MovingProofs.
 Local Open Scope N_scope.
 
 (* partial: a configured starting LIB (exclusive or inclusive) coherent with the history, LIB declarations in
@@ -11,6 +11,12 @@ Local Open Scope N_scope.
 Theorem c04_moving_lib_partial : c04_moving_lib_statement.
 Proof. exact c04_moving_lib_proved. Qed.
 Print Assumptions c04_moving_lib_partial.
+
+(* the same for histories that may contain roots (blocks with an empty parent id): class moving_scope2_b of
+   Spec/C01_Roots_Spec.v, which contains moving_scope_b *)
+Theorem c04_moving_lib_roots_partial : c04_moving_lib_roots_statement.
+Proof. exact c04_moving_lib_roots_proved. Qed.
+Print Assumptions c04_moving_lib_roots_partial.
 
 (* the monitor follows from the per-step shape alone, whatever produced the trace *)
 Theorem c04_moving_shape_accepted : forall r0 firr m h t, rooted_mode r0 m ->
@@ -49,4 +55,16 @@ Example c04_moving_nonvacuous :
   firstn 3 (map c04m_ex_view (all_events (fk_run (c04m_ex_cfg true None) (fs_init (LIncl c04m_ex_r0))
                                                  (mkBlock 1 10 99 10 :: c04m_ex_hist)))) =
     [(SNew, 1, 1, None, 0, 0); (SIrr, 1, 1, None, 0, 1); (SNew, 2, 1, None, 0, 0)].
+Proof. vm_compute. repeat split. Qed.
+
+(* non-vacuity of the roots class: a root (block 30, empty parent id) fed twice and a block under it are never
+   delivered; the root is reported stalled when the LIB passes its height *)
+Definition c04m_ex_roots : list block :=
+  [ mkBlock 2 11 1 10; mkBlock 30 12 0 10; mkBlock 31 13 30 10; mkBlock 3 12 2 10; mkBlock 30 12 0 10;
+    mkBlock 4 13 3 12 ].
+Example c04_moving_roots_nonvacuous :
+  moving_scope2_b c04m_ex_r0 c04m_ex_roots = true /\ moving_scope_b c04m_ex_r0 c04m_ex_roots = false /\
+  map c04m_ex_view (all_events (fk_run (c04m_ex_cfg false None) (fs_init (LExcl c04m_ex_r0)) c04m_ex_roots)) =
+    [(SNew, 2, 1, None, 0, 0); (SNew, 3, 1, None, 0, 0); (SNew, 4, 1, None, 0, 0);
+     (SIrr, 2, 2, None, 0, 2); (SIrr, 3, 3, None, 1, 2); (SStalled, 30, 3, None, 0, 1)].
 Proof. vm_compute. repeat split. Qed.
